@@ -102,14 +102,16 @@ def generate(rng, config):
     installed = {}
     for s in names:
         installed[s] = {"convention": REFERENCE_CONVENTION[s],
-                        "shape": random_shape(rng)}
+                        "shape": random_shape(rng),
+                        "help_rc": rng.choice([0, 0, 1, 2])}
     foreign = []
     if rng.random() < 0.35:
         fname = rng.choice(["mysolver", "hacked-minisat", "solver2",
                             "/opt/bin/kissat-dev"])
         conv = rng.choice(["stdin_stdout", "filein_stdout",
                            "filein_fileout"])
-        installed[fname] = {"convention": conv, "shape": random_shape(rng)}
+        installed[fname] = {"convention": conv, "shape": random_shape(rng),
+                            "help_rc": rng.choice([0, 0, 1])}
         foreign.append(fname)
     calls = []
     for _ in range(rng.choice([1, 1, 2, 3])):
@@ -552,4 +554,4 @@ def _outcome_repr(res):
     return "exc:%s" % type(res[1]).__name__
 
 
-SHRINK_SKIP = {"convention"}
+SHRINK_SKIP = {"convention", "help_rc"}
